@@ -4,9 +4,13 @@
     [iter_fold_model] / [sample_chunks] (flat row-major buffers, widths w and t),
     [cross_validate_model] (any arithmetic [NumOps F], abstract fit / predict / eval returning E + _).
     n = number of samples, k = number of folds, n / k = floor(n/k) = fold size. *)
-From Coq Require Import List Arith NArith Lia Permutation Reals.
-From LinfaVerif Require Import Common.Num C01.Model C01.Proofs C01.Corr C01.OracleSound.
+From Coq Require Import List Arith NArith ZArith QArith Qreals Lia Lra Permutation Reals Floats.
+
+From LinfaVerif Require Import Common.Num Common.QF C01.Model C01.Proofs C01.LayoutProofs C01.Corr C01.OracleSound C01.CvSound.
 Import ListNotations.
+Local Close Scope Q_scope.
+Local Close Scope R_scope.
+Local Open Scope nat_scope.
 
 (** ** fold *)
 
@@ -222,10 +226,133 @@ Theorem iter_fold_oracle_sound : forall (c : case) (ir : ifres),
   (forall i it, nth_error (ir_items ir) i = Some it ->
      is_block_of_case c i (ii_vr it) (ii_vt it) /\
      is_partition_of_case c (ii_ar it) (ii_at it) (ii_vr it) (ii_vt it)) /\
-  ir_rec ir = c_recs c /\ ir_tgt ir = c_tgts c.
+  ir_rec ir = c_recs c /\ ir_tgt ir = c_tgts c /\ ir_outside_ok ir = true.
 Proof. exact oracle_ifold_sound. Qed.
 
 (** a panic on a valid input never gets verdict 0 *)
 Theorem oracle_rejects_panic : forall c : case, case_in_domain c ->
   oracle_fold c None <> 0%N /\ oracle_ifold c None <> 0%N.
 Proof. exact oracle_rejects_panics. Qed.
+
+(** ** storage layouts *)
+
+(** an array / view of shape (rows, cols) whose element (r, c) lives at off + r*s0 + c*s1 of a buffer:
+    when ndarray's is_standard_layout test [is_standard] accepts it (every axis of length <> 1 has the
+    row-major stride; empty arrays are accepted), the row-major logical contents ARE the rows*cols
+    consecutive cells from off on - the slice as_slice_mut() hands to the swap macro *)
+Theorem standard_layout_window : forall (A : Type) (d : A) (v : view2) (buf : list A),
+  is_standard v = true -> vw_off v + vw_rows v * vw_cols v <= length buf ->
+  vw_logical d v buf = firstn (vw_rows v * vw_cols v) (skipn (vw_off v) buf) /\
+  as_slice v buf = Some (vw_logical d v buf).
+Proof.
+  intros A d v buf Hs Hb. split; [now apply logical_standard | apply (as_slice_standard d v buf Hs Hb)].
+Qed.
+
+(** for which layouts the flat-buffer model of iter_fold applies (1 <= k <= n, records and targets with
+    the same number of rows): exactly when BOTH records and targets are in standard layout.  Then the
+    items are those of [iter_fold_model] on the logical contents (to which all theorems above apply),
+    k of them, and both whole parent buffers - the cells of the two windows and every cell around them -
+    are what they were.  In every other layout (column-major, transposed, stepped or reversed rows,
+    a column range of a wider array, ...) the call panics before a single cell is moved: there is no
+    layout on which it silently works on misaligned cells. *)
+Theorem iter_fold_layout_guard : forall (A B Obj : Type) (da : A) (db : B) (fit : list A * list B -> Obj)
+    (k : nat) (rv tv : view2) (rbuf : list A) (tbuf : list B),
+  1 <= k <= vw_rows rv -> vw_rows tv = vw_rows rv ->
+  (is_standard rv = true -> is_standard tv = true ->
+   vw_off rv + vw_rows rv * vw_cols rv <= length rbuf -> vw_off tv + vw_rows tv * vw_cols tv <= length tbuf ->
+   exists items,
+     iter_fold_model fit k (vw_rows rv) (vw_cols rv) (vw_cols tv) (vw_logical da rv rbuf) (vw_logical db tv tbuf)
+       = Some (items, (vw_logical da rv rbuf, vw_logical db tv tbuf)) /\
+     length items = k /\
+     iter_fold_strided da db fit k rv tv rbuf tbuf = Some (items, (rbuf, tbuf))) /\
+  (is_standard rv = false \/ is_standard tv = false -> iter_fold_strided da db fit k rv tv rbuf tbuf = None).
+Proof. intros. now apply iter_fold_guard. Qed.
+
+(** a write through the window of a standard-layout view never reaches a cell outside the window *)
+Theorem window_write_stays_inside : forall (A : Type) (d : A) (v : view2) (buf win : list A) (p : nat),
+  vw_off v + vw_rows v * vw_cols v <= length buf -> length win = vw_rows v * vw_cols v ->
+  p < vw_off v \/ vw_off v + vw_rows v * vw_cols v <= p ->
+  nth p (write_back v buf win) d = nth p buf d.
+Proof. intros. now apply write_back_outside. Qed.
+
+(** the same guard for cross_validate (any arithmetic, any fit / predict / eval) *)
+Theorem cross_validate_layout_guard : forall (F : Type) (o : NumOps F) (A B E M P : Type) (da : A) (db : B)
+    (fit : nat -> list A * list B -> E + M) (predict : M -> list A -> P) (eval : P -> list B -> E + list F)
+    (k nmodels : nat) (rv tv : view2) (rbuf : list A) (tbuf : list B),
+  (1 <= k <= vw_rows rv -> vw_rows tv = vw_rows rv ->
+   is_standard rv = true -> is_standard tv = true ->
+   vw_off rv + vw_rows rv * vw_cols rv <= length rbuf -> vw_off tv + vw_rows tv * vw_cols tv <= length tbuf ->
+   cross_validate_strided o da db fit predict eval k nmodels rv tv rbuf tbuf =
+   option_map (fun r => (fst r, (rbuf, tbuf)))
+     (cross_validate_model o fit predict eval k nmodels (vw_rows rv) (vw_cols rv) (vw_cols tv)
+        (vw_logical da rv rbuf) (vw_logical db tv tbuf))) /\
+  (is_standard rv = false \/ is_standard tv = false ->
+   cross_validate_strided o da db fit predict eval k nmodels rv tv rbuf tbuf = None).
+Proof.
+  intros. split; [intros; now apply cv_strided_standard | intros; now apply cv_strided_nonstandard].
+Qed.
+
+(** the layout part of the oracle: verdict 0 on an observed iter_fold outcome for a dataset given by
+    (offset, strides, parent buffer) means - no result: some array is not in standard layout (the
+    documented panic); a result: k items, validation views = blocks of the logical dataset, closure
+    argument + validation view = the samples with records attached to targets, logical contents and
+    both parent buffers unchanged.  A silently misaligned result is therefore never accepted. *)
+Theorem layout_oracle_sound : forall (c : case) (lc : laycase) (r : option (ifres * (list N * list N))),
+  case_in_domain c -> oracle_lay_ifold c lc r = 0%N ->
+  match r with
+  | None => lay_std c lc = false
+  | Some (ir, (pr, pt)) =>
+      length (ir_items ir) = case_k c /\
+      (forall i it, nth_error (ir_items ir) i = Some it ->
+         is_block_of_case c i (ii_vr it) (ii_vt it) /\
+         is_partition_of_case c (ii_ar it) (ii_at it) (ii_vr it) (ii_vt it)) /\
+      ir_rec ir = c_recs c /\ ir_tgt ir = c_tgts c /\ pr = lc_rpar lc /\ pt = lc_tpar lc
+  end.
+Proof. exact oracle_lay_ifold_sound. Qed.
+
+(** ** the cross-validation part of the oracle is sound *)
+
+(** [kt] is the float kit (binary64: kit64 with slack 2^-40, binary32: kit32 with slack 2^-14), RQ kt x
+    the real number the finite float x stands for (exact rational value, Common/QF.v).  Verdict 0 on an
+    observed outcome of cross_validate / cross_validate_single for a case with 2 <= k <= n means:
+    - it did not panic;
+    - an error: it is the error of one of the failing fits / evaluations of the k folds (computed from the
+      specification: fit on the complement of block i, evaluate on block i);
+    - scores: nothing fails, one row per parameter set and one column per target column, and EVERY
+      reported score x (parameter set m, column j) is a finite float with
+        | x - (e_0 + ... + e_{k-1}) / k |  <=  slack * (|e_0| + ... + |e_{k-1}|) / k     over R,
+      where e_i is the (finite) value the evaluation closure yields for fold i: the arithmetic mean
+      over the k folds of the evaluation values;
+    - the dataset holds its original contents afterwards. *)
+Theorem cv_oracle_sound : forall (c : case) (F : Type) (kt : fkit F) (cv : cvcase F),
+  case_in_domain c -> oracle_cv c kt cv = 0%N ->
+  match cv_out cv with
+  | CvPanic => False
+  | CvErr e => In e (spec_failures c kt cv)
+  | CvOk r cl d =>
+      spec_failures c kt cv = [] /\
+      r = N.of_nat (length (cv_cm cv)) /\ cl = N.of_nat (case_tw c) /\ length d = length (cv_cm cv) * case_tw c /\
+      forall m j, m < length (cv_cm cv) -> j < case_tw c ->
+        let es := fold_scores c kt cv m j in
+        let x := nth (m * case_tw c + j) d (fk_nan kt) in
+        length es = case_k c /\ fk_fin kt x = true /\ Forall (fun e => fk_fin kt e = true) es /\
+        (Rabs (RQ kt x - Rsum (map (RQ kt) es) / INR (length es))
+         <= Q2R (fk_tol kt) * (Rsum (map (fun e => Rabs (RQ kt e)) es) / INR (length es)))%R
+  end /\ cv_rec cv = c_recs c /\ cv_tgt cv = c_tgts c /\ cv_outside_ok cv = true.
+Proof. intros c F kt cv Hd H. exact (oracle_cv_sound c kt cv Hd H). Qed.
+
+(** the slacks: 2^-40 for f64 scores, 2^-14 for f32 scores *)
+Theorem cv_oracle_slack :
+  Q2R (fk_tol kit64) = (/ 1099511627776)%R /\ Q2R (fk_tol kit32) = (/ 16384)%R.
+Proof. split; unfold Q2R; simpl; lra. Qed.
+
+(** the same under a storage layout: a panic is accepted only where some array is not in standard
+    layout; any other outcome is judged as above and both parent buffers must be unchanged *)
+Theorem cv_layout_oracle_sound : forall (c : case) (lc : laycase) (cv : cvcase float) (after : option (list N * list N)),
+  case_in_domain c -> oracle_lay_cv c lc (cv, after) = 0%N ->
+  match cv_out cv with
+  | CvPanic => lay_std c lc = false
+  | _ => cv_outcome_ok c kit64 cv /\ cv_rec cv = c_recs c /\ cv_tgt cv = c_tgts c /\
+         after = Some (lc_rpar lc, lc_tpar lc)
+  end.
+Proof. exact oracle_lay_cv_sound. Qed.
